@@ -35,11 +35,34 @@ META = {
             "parameter of the model) accepts exactly the endorsements the live settlement rule accepts, with "
             "C10_recovery_window_short_refuted for the window shortened by one; C10_reload_equiv_partial - for any history and any placement of saves, load of the accumulated "
             "storage succeeds and yields the tip and every live block's persisted projection (status, payload ids, "
-            "containing endorsements, refcount, parent, height) as of the last save. PARTIAL: premises about the "
-            "saved state are assumed, not proved for all reachable states (structural consistency of the stored block "
+            "containing endorsements, refcount, parent, height) as of the last save, under premises about the saved state (structural consistency of the stored block "
             "set - from which the parent-before-child order of the height sort IS proved - and a stored active chain "
-            "that is ACTIVE and fully valid so that loadTip changes nothing persisted), and "
-            "the rebuilt endorsedBy/block-of-proof lists are not described - those parts are checked by the direct "
+            "that is ACTIVE and fully valid so that loadTip changes nothing persisted). These premises are now PROVED for "
+            "the saved state of every guarded history: C10_reload_wf_inductive - the well-formedness invariant wf "
+            "(Store/ReloadEquiv.v: unique ids, every tree index at least VALID_TREE and every ACTIVE one fully valid, "
+            "parent index one below / parent of a tree block is a tree block / parent of an ACTIVE block is ACTIVE, "
+            "endorsed blocks are tree blocks strictly below, endorsedBy = multiset of the containing endorsements pointing "
+            "to the block, removed indices exactly as deleteTemporarily leaves them, the tip is an ACTIVE tree block) holds "
+            "initially and is preserved by every operation that meets its caller guarantees pre; C10_load_of_wf / "
+            "C10_reload_equiv - for every guarded history with saves at any positions load of the accumulated storage "
+            "SUCCEEDS (each failure branch of load - bad-prev, bad-height, no-endorsed, missing tip - is excluded by a "
+            "named clause of wf) and the loaded state is equivalent to the live one: same tip, same blocks with equal "
+            "persisted projection, finalized mark and endorsedBy multiset (rebuilt by recoverEndorsements), all loaded "
+            "blocks clean; ignored are only the dirty bit, the map order and BLOCK_DELETED indices (never loaded); "
+            "C10_reload_chainwork - the chain work recomputed from that storage is the parent-path sum in the live tree; "
+            "C10_reload_step_equiv / C10_reload_continues - every operation on equivalent states has the same outcome "
+            "(Done or the same Abort code) and equivalent results, hence the reloaded instance follows the live one op "
+            "for op over every guarded follow-up history; C10_reload_example - a history with forks, invalidation, "
+            "removal/re-adding, payload changes, endorsements, reorgs and saves meets the premises (executable guard "
+            "Store/ReloadGuardB.v). NOT proved / restrictions: the operations of the model take block lists, "
+            "endorsements and the tip as free arguments, so the theorems are stated for guarded histories (pre = what "
+            "the C++ callers guarantee; C10_reload_unguarded_refuted shows the statement is false without: an "
+            "endorsement of a missing block makes load fail, a save between unapply and setTip reloads an ACTIVE tip); "
+            "two guarantees restrict the API rather than describe the callers: a removed block that carried "
+            "FAILED_BLOCK or a stale FAILED_CHILD is not re-added, and ACTIVE/tip change in the order "
+            "setTip-then-unapply / apply-then-setTip. That the real traversals (descendant lists, removed subtrees, "
+            "endorsement validation) satisfy pre is NOT proved in Coq; block-of-proof back pointers, payload index, "
+            "tips_ sets and finalization of the reloaded tree are not modelled - those parts are checked by the direct "
             "oracle and by the model/implementation comparison of load. Direct oracle on the rebuilt "
             "library: for generated histories under small settlement intervals (ATV and VTB endorsements at every "
             "distance up to and including the boundary; forks, reorgs, invalid payloads, invalidate/revalidate, remove, "
